@@ -142,9 +142,7 @@ impl PathRequireMode {
             source_path.display(),
         );
 
-        let mut generated_path = if path_utils::is_require_relative(require_path) {
-            require_path.to_path_buf()
-        } else {
+        let mut generated_path = {
             let normalized_require_path = utils::normalize_path(require_path);
             log::trace!(
                 " ⨽ adjust non-relative path `{}` (normalized to `{}`) from `{}`",
